@@ -9,6 +9,7 @@ unchanged tree nothing differs and nothing extra runs.  The guard never raises a
 import hashlib
 import json
 import os
+import re
 
 from .lexer import lex, sig
 
@@ -23,6 +24,8 @@ EXTRA = {
     'C11': ['acts/src/scheduler/process', 'acts/src/scheduler/context.rs', 'acts/src/scheduler/runtime.rs', 'acts/src/package/core'],
     'C12': ['acts/src/scheduler/process', 'acts/src/scheduler/context.rs', 'acts/src/scheduler/runtime.rs', 'acts/src/package/core', 'acts/src/cache'],
     'C13': ['acts/src/cache', 'acts/src/scheduler/runtime.rs', 'acts/src/export/executor/process_executor.rs'],
+    # "is seen by every later condition, script and message": the script environment is where conditions, templates and scripts read names
+    'C07': ['acts/src/env'],
 }
 
 
@@ -51,6 +54,11 @@ def _anchor_files(prop):
                                 files.append(os.path.relpath(os.path.join(dp, fn), REPO))
                 else:
                     files.append(a)
+            # files named only in the `where` of a mechanism (e.g. acts/src/scheduler/scheduler.rs for C13) count as well
+            for m in p.get('anchors', {}).get('mechanism', []):
+                for w in re.findall(r'[\w/.-]+\.rs', m.get('where', '')):
+                    if os.path.exists(os.path.join(REPO, w)):
+                        files.append(w)
     return files
 
 
